@@ -83,6 +83,28 @@ def build_tree(case, X, y):
     return dt, False
 
 
+def tree_arrays(tr):
+    import numpy as np
+    return {'cl': [int(v) for v in tr.children_left], 'cr': [int(v) for v in tr.children_right],
+            'f': [int(v) for v in tr.feature], 'thr': [ffr(v) for v in tr.threshold],
+            'val': [ffr(v) for v in np.asarray(tr.value).flatten()]}
+
+
+def snapshot(tr):
+    import numpy as np
+    return [np.array(getattr(tr, k), copy=True) for k in ('value', 'threshold', 'children_left', 'children_right', 'feature')]
+
+
+def same_arrays(tr, snap):
+    import numpy as np
+    cur = [np.asarray(getattr(tr, k)) for k in ('value', 'threshold', 'children_left', 'children_right', 'feature')]
+    return all(a.shape == b.shape and a.dtype == b.dtype and a.tobytes() == b.tobytes() for a, b in zip(cur, snap))
+
+
+def const(num, den, as_int=False):
+    return int(num) if (as_int and den == 1) else float(Fraction(num, den))
+
+
 def run_impl(case):
     import numpy as np
 
@@ -95,18 +117,39 @@ def run_impl(case):
         y = np.array([float(fr(v)) for v in case['y']], dtype=float)
         names = ['f%d' % j for j in range(X.shape[1])]
         engine = getattr(ps, case['engine'])
+        engine2 = getattr(ps, [e for e in ENGINES if e != case['engine']][0])
         K = MVContext(X, {f: engine for f in names}, target=y, attribute_names=names)
+        K2 = MVContext(X, {f: engine2 for f in names}, target=y, attribute_names=names)
         dt, real = build_tree(case, X, y)
         tr = dt.tree_
-        out = {'tree': {'cl': [int(v) for v in tr.children_left], 'cr': [int(v) for v in tr.children_right],
-                        'f': [int(v) for v in tr.feature], 'thr': [ffr(v) for v in tr.threshold],
-                        'val': [ffr(v) for v in np.asarray(tr.value).flatten()]},
-               'X': [[ffr(v) for v in row] for row in X],
-               'sk': [ffr(v) for v in dt.predict(X)] if real else None}
+        snap = snapshot(tr)
+        out = {'tree': tree_arrays(tr), 'X': [[ffr(v) for v in row] for row in X],
+               'f32': bool(all(float(np.float32(v)) == float(v) for v in X.flat)),
+               'sk': [ffr(v) for v in dt.predict(X)] if real else None,
+               'sk_after': None, 'kept': True, 'pred2': ['err', 'Other', 'not run'], 'scaled': [], 'hists': [],
+               'tree2': {'cl': [-1], 'cr': [-1], 'f': [-2], 'thr': [[-2, 1]], 'val': [[0, 1]]},
+               'other': ['err', 'Other', 'not run']}
         r = guarded(lambda: DLR.from_decision_tree(dt, K), 60)
+        out['kept'] = same_arrays(tr, snap)
+        if real:
+            out['sk_after'] = [ffr(v) for v in dt.predict(X)]
+        # a second conversion of the same tree object, on the other interval engine
+        r2nd = guarded(lambda: [ffr(v) for v in DLR.from_decision_tree(dt, K2).predict(K2)], 60)
+        out['pred2'] = list(r2nd)
+        out['kept'] = out['kept'] and same_arrays(tr, snap)
+        # another tree on the same table (for r += other * k)
+        from sklearn.tree import DecisionTreeRegressor
+        y2 = y + X[:, 0] - (X[:, -1] if X.shape[1] > 1 else 0)
+        dt2 = DecisionTreeRegressor(max_depth=2, random_state=case.get('seed', 0) + 1).fit(X, y2)
+        out['tree2'] = tree_arrays(dt2.tree_)
+        ro = guarded(lambda: DLR.from_decision_tree(dt2, K), 60)
+        if ro[0] == 'ok':
+            O = ro[1]
+            out['other'] = list(guarded(lambda: [ffr(v) for v in O.predict(K)], 60))
+        else:
+            out['other'] = ['err', ro[1], ro[2]]
         if r[0] == 'err':
             out['pred'] = ['err', r[1], r[2]]
-            out['scaled'] = []
             return out
         D = r[1]
         out['pred'] = ['ok', [ffr(v) for v in D.predict(K)]]
@@ -130,8 +173,42 @@ def run_impl(case):
             orig = [ffr(v) for v in D.predict(K)]
             sc.append([num, den, mode, list(r2), orig])
         out['scaled'] = sc
+        # histories on the RESULT of a scaling, interleaved with predictions of the original
+        if ro[0] == 'ok':
+            for h in case.get('hists', []):
+                k = const(h['k'][0], h['k'][1], h.get('as_int', False))
+                steps = []
+
+                def both(rr):
+                    a = guarded(lambda: [ffr(v) for v in rr.predict(K)], 60)
+                    b = guarded(lambda: [ffr(v) for v in D.predict(K)], 60)
+                    steps.append([list(a), list(b)])
+                made = guarded(lambda: (D / k) if h['div'] else (D * k), 60)
+                if made[0] != 'ok':
+                    out['hists'].append({'fresh': True, 'steps': [[list(made), ['err', 'Other', '']]]})
+                    continue
+                R = made[1]
+                fresh = R is not D
+                both(R)
+                for op in h['ops']:
+                    c2 = const(op[1], op[2], h.get('as_int', False))
+
+                    def do():
+                        nonlocal R
+                        if op[0] == 'mul':
+                            R *= c2
+                        elif op[0] == 'div':
+                            R /= c2
+                        else:
+                            R += O * c2
+                    e = guarded(do, 60)
+                    if e[0] != 'ok':
+                        steps.append([list(e), list(guarded(lambda: [ffr(v) for v in D.predict(K)], 60))])
+                        break
+                    both(R)
+                out['hists'].append({'fresh': bool(fresh), 'steps': steps})
         return out
-    return list(guarded(go, 120))
+    return list(guarded(go, 180))
 
 
 # ------------------------------------------------------------------ Coq terms
@@ -153,16 +230,32 @@ def dres(r):
     return '(DErr %d)' % ERR_KINDS.get(r[1], 11)
 
 
+def opt_qlist(v):
+    return 'None' if v is None else '(Some %s)' % qlist(v)
+
+
+def hist_term(h, o):
+    ops = '[' + '; '.join('(%s %s)' % ({'mul': 'SMul', 'div': 'SDiv', 'add': 'SAdd'}[op[0]], q(Fraction(op[1], op[2])))
+                          for op in h['ops']) + ']'
+    steps = '[' + '; '.join('(%s, %s)' % (dres(a), dres(b)) for a, b in o['steps']) + ']'
+    return 'Build_hist %s %s %s %s %s' % (q(Fraction(h['k'][0], h['k'][1])), 'true' if h['div'] else 'false', ops,
+                                          'true' if o['fresh'] else 'false', steps)
+
+
 def to_coq(case, out):
     if out[0] != 'ok':
         # nothing ran (e.g. the fit itself failed): an impossible outcome for the model
-        return 'Build_c20_case [] (RLeaf (q 0 1)) (DErr %d) None []' % ERR_KINDS.get(out[1], 11)
+        return ('Build_c20_case [] true (RLeaf (q 0 1)) (DErr %d) None None true (DErr 0) [] (RLeaf (q 0 1)) (DErr 0) []'
+                % ERR_KINDS.get(out[1], 11))
     o = out[1]
     X = '[' + '; '.join(qlist(row) for row in o['X']) + ']'
-    sk = 'None' if o['sk'] is None else '(Some %s)' % qlist(o['sk'])
     sc = '[' + '; '.join('Build_scaled %s %d %s %s' % (q(Fraction(n, d)), m, dres(r), qlist(orig))
                          for n, d, m, r, orig in o['scaled']) + ']'
-    return 'Build_c20_case %s %s %s %s %s' % (X, tree_term(o['tree']), dres(o['pred']), sk, sc)
+    hs = '[' + '; '.join(hist_term(h, ho) for h, ho in zip(case.get('hists', []), o['hists'])) + ']'
+    return 'Build_c20_case %s %s %s %s %s %s %s %s %s %s %s %s' % (
+        X, 'true' if o['f32'] else 'false', tree_term(o['tree']), dres(o['pred']), opt_qlist(o['sk']),
+        opt_qlist(o['sk_after']), 'true' if o['kept'] else 'false', dres(o['pred2']), sc,
+        tree_term(o['tree2']), dres(o['other']), hs)
 
 
 # ------------------------------------------------------------------ generators
@@ -222,6 +315,23 @@ def random_scales(rng, lo=1, hi=4):
         if k == 0 and mode in (2, 3) and rng.random() < 0.7:
             k = Fraction(5, 2)
         out.append([k.numerator, k.denominator, mode])
+    return out
+
+
+HIST_CONSTS = [Fraction(1), Fraction(1), Fraction(-1), Fraction(2), Fraction(1, 2), Fraction(-3, 4), Fraction(3), Fraction(1, 4)]
+
+
+def random_hists(rng, lo=1, hi=2):
+    """r = DL op k, then in-place operations on r; the constant exactly 1 (as int and as float) is frequent"""
+    out = []
+    for _ in range(rng.randint(lo, hi)):
+        k = rng.choice(HIST_CONSTS)
+        ops = []
+        for _ in range(rng.randint(1, 3)):
+            c2 = rng.choice(HIST_CONSTS + [Fraction(5, 2)])
+            ops.append([rng.choice(['mul', 'div', 'add', 'add']), c2.numerator, c2.denominator])
+        out.append({'k': [k.numerator, k.denominator], 'div': rng.random() < 0.4, 'ops': ops,
+                    'as_int': rng.random() < 0.4})
     return out
 
 
@@ -297,7 +407,8 @@ def mock_case(rng, max_rows, engine):
     if numbering != 'pre':
         arr = renumber(rng, arr, numbering)
     return {'engine': engine, 'X': [[f2(v) for v in r] for r in X], 'y': [f2(v) for v in y], 'src': 'mock',
-            'tree': arr, 'scales': random_scales(rng), 'depth': None, 'seed': 0, 'numbering': numbering}
+            'tree': arr, 'scales': random_scales(rng, 1, 2), 'hists': random_hists(rng), 'depth': None, 'seed': 0,
+            'numbering': numbering}
 
 
 def broken_case(rng, max_rows, engine):
@@ -336,13 +447,15 @@ def broken_case(rng, max_rows, engine):
     c['src'] = 'broken'
     c['broken'] = kind
     c['scales'] = c['scales'][:1]
+    c['hists'] = []
     return c
 
 
 def fitted_case(rng, max_rows, engine):
     X, y = random_table(rng, max_rows)
     c = {'engine': engine, 'X': [[f2(v) for v in r] for r in X], 'y': [f2(v) for v in y],
-         'depth': rng.choice([1, 2, 3, None]), 'seed': rng.randrange(1000), 'scales': random_scales(rng),
+         'depth': rng.choice([1, 2, 3, None]), 'seed': rng.randrange(1000), 'scales': random_scales(rng, 1, 2),
+         'hists': random_hists(rng),
          'mln': rng.choice([None, None, 3, 4, 6, 8])}
     if rng.random() < 0.3:
         c.update(src='rf', rf_n=rng.randint(2, 4))
@@ -396,6 +509,13 @@ def shrink(case):
     if len(case['scales']) > 0:
         for i in range(len(case['scales'])):
             out.append(dict(case, scales=case['scales'][:i] + case['scales'][i + 1:]))
+    hs = case.get('hists', [])
+    for i in range(len(hs)):
+        out.append(dict(case, hists=hs[:i] + hs[i + 1:]))
+        if len(hs[i]['ops']) > 1:
+            for j in range(len(hs[i]['ops'])):
+                h2 = dict(hs[i], ops=hs[i]['ops'][:j] + hs[i]['ops'][j + 1:])
+                out.append(dict(case, hists=hs[:i] + [h2] + hs[i + 1:]))
     n = len(case['X'])
     if n > 1:
         for i in range(n):
